@@ -306,17 +306,21 @@ def witness_send_failure(res, drv):
     res.count(("witness", "send-failure"), sample={"op": "witness replay", "name": "send failure strands the Separate.req", "close_finished": finished})
     res.bump("witness", f"send-failure-strands-queue: close finished={finished}")
     if drv.available:
-        m = drv.run(["rx wedge nonblocking C K" + hexs(LINKTEST_REQ(5)) + " P P P P P P D D X T P P p P P D D |"])[0]
+        # the loop that exists goes on after the failed block: the model (current variant) finishes the close sequence on this schedule;
+        # should the implementation hang again, it must at least be the hang of the variant before the repair
+        sched = " C K" + hexs(LINKTEST_REQ(5)) + " P P P P P P D D X T P P p"
+        m = drv.run(["rx wedge nonblocking" + sched + " Q |" if finished else "rx wedge returning" + sched + " P P D D |"])[0]
         res.traces_validated += 1
-        if not finished and "wedged=1" not in m:
-            res.disagree("witness send-failure-strands-queue: implementation hangs, model does not", case, m, f"close finished={finished}")
-        if finished:
-            res.notes.append("witness send-failure-strands-queue no longer fails on the implementation (repaired?): the model's defect witness does not apply")
+        if not (("tcp=done" in m and "conn=0" in m) if finished else ("wedged=1" in m)):
+            res.disagree("witness send-failure-strands-queue: model vs implementation", case, m, f"close finished={finished}")
     if not finished:
         res.violate("c09-send-failure-strands-queue",
                     "two sends queued under one trigger, the first send_data fails: the Separate.req is never processed, the close sequence never "
                     "finishes (connection thread blocked in BlockSendInfo.wait, state stays CONNECTED)", case,
                     "close sequence finishes", {"state": str(ep.state()), "send_queue": ep.p._send_queue.qsize()})
+    elif ep.state() != ConnectionState.NOT_CONNECTED or ep.p._send_queue.qsize() != 0:
+        res.violate("c09-state", "after a close sequence with failing sends: not NOT_CONNECTED or blocks left in the send queue", case,
+                    "NOT_CONNECTED, empty send queue", {"state": str(ep.state()), "send_queue": ep.p._send_queue.qsize()})
 
 
 def witness_stale_reply(res, drv):
@@ -630,7 +634,7 @@ def tcp_part(res, rng, drv, big):
     for i, off in enumerate(offs[::2]):
         tcp_active_case(res, stream, off, i)
     # disable() with nothing connected, and right after a connection came and went, must return
-    for mode in (secsgem.hsms.HsmsConnectMode.ACTIVE,):
+    for mode in (secsgem.hsms.HsmsConnectMode.PASSIVE, secsgem.hsms.HsmsConnectMode.ACTIVE):
         port = free_port()
         p = secsgem.hsms.HsmsProtocol(secsgem.hsms.HsmsSettings(address="127.0.0.1", port=port, connect_mode=mode, t5=1))
         p.enable()
@@ -662,8 +666,8 @@ def main():
                 "thread-level model; the same with the close racing the threads; random valid streams cut at a random offset; witnesses of the "
                 "recorded findings; thorough: real TcpServerConnection/TcpClientConnection on loopback, raw peer cuts and closes, enable/disable "
                 "bounded. distinct = distinct (state, stream, offset); every case is non-trivial")
-    # `--replay`: check.py counts every violation of the replay run, also those of recorded findings; so a replay re-runs the recorded cases
-    # and the deterministic sweep, and the parts that show the recorded findings only if the replay file is about one of them
+    # `--replay`: a replay re-runs the recorded cases and the deterministic sweep; the parts that (can) show the open finding
+    # c09-stale-reply-next-connection and the corpus witnesses of repaired findings run only if the replay file is about one of them
     known = {"c09-tcp-disable-hang", "c09-tcp-server-idle-disable-hang", "c09-send-failure-strands-queue", "c09-stale-reply-next-connection"}
     rec_classes = {v.get("class") for v in recorded}
     replaying = a.replay is not None
